@@ -36,6 +36,9 @@ pub struct Story {
     prev_containers: Vec<Rc<Container>>,
     list_definitions: Rc<ListDefinitionsOrigin>,
     pub(crate) on_error: Option<Rc<RefCell<dyn ErrorHandler>>>,
+    // The warnings in the state were left readable by a continue that had no
+    // error handler: the host has them, the next continue forgets them.
+    pub(crate) warnings_left_readable: bool,
     pub(crate) state_snapshot_at_last_new_line: Option<StoryState>,
     pub(crate) variable_observers: HashMap<String, Vec<Rc<RefCell<dyn VariableObserver>>>>,
     pub(crate) has_validated_externals: bool,
@@ -78,6 +81,7 @@ mod misc {
                 saw_lookahead_unsafe_function_after_new_line: false,
                 state_snapshot_at_last_new_line: None,
                 on_error: None,
+                warnings_left_readable: false,
                 prev_containers: Vec::new(),
                 list_definitions,
                 variable_observers: HashMap::with_capacity(0),
